@@ -722,11 +722,54 @@ def views(args):
 def parse_outcome(parser, fmt, tokens, lenient, raw=None):
     """('ok', views, args) | ('exc', type name, message, site, exception)"""
     raw = raw if raw is not None else raw_args(tokens)
+    if _HANGS[0] >= 6:
+        # parse() has stopped coming back on this tree (recorded six times, with witnesses): the remaining cases are not
+        # run -- the check has to end and report
+        return ("exc", "DoesNotReturn", "not run: parse() did not return in six earlier cases", "DoesNotReturn@parse", None)
     try:
-        args = parser.parse(raw, fmt, lenient)
+        with time_limit(PARSE_TIME_LIMIT_S if _HANGS[0] < 2 else 0.3):
+            args = parser.parse(raw, fmt, lenient)
+    except ParseDoesNotReturn as e:
+        _HANGS[0] += 1  # (after two observations the watchdog gets short: the check must still end)
+        # a parse that does not come back is an observation like any other outcome (and never the expected one)
+        return ("exc", "DoesNotReturn", "parse() did not return within %d s" % PARSE_TIME_LIMIT_S, "DoesNotReturn@parse", e)
     except Exception as e:  # the call under test: every exception class is an observation
         return ("exc", type(e).__name__, str(e), exc_site(e), e)
     return ("ok", views(args), args)
+
+
+PARSE_TIME_LIMIT_S = 5
+_HANGS = [0]
+
+
+class ParseDoesNotReturn(Exception):
+    pass
+
+
+class time_limit(object):
+    """SIGALRM watchdog around one call of the code under test (main thread only; elsewhere it is a no-op)"""
+
+    def __init__(self, seconds):
+        self.seconds = seconds
+        self.armed = False
+
+    def __enter__(self):
+        import signal
+        import threading
+        if threading.current_thread() is threading.main_thread() and hasattr(signal, "setitimer"):
+            def on_alarm(signum, frame):
+                raise ParseDoesNotReturn()
+            self.old = signal.signal(signal.SIGALRM, on_alarm)
+            signal.setitimer(signal.ITIMER_REAL, self.seconds)
+            self.armed = True
+        return self
+
+    def __exit__(self, *a):
+        if self.armed:
+            import signal
+            signal.setitimer(signal.ITIMER_REAL, 0)
+            signal.signal(signal.SIGALRM, self.old)
+        return False
 
 
 def outcome_key(out):
